@@ -23,6 +23,8 @@ type blasMenus struct {
 	incs         []int
 	scalars      [][2]complex128
 	pairs        bool
+	// pairsAllScalars: enumerate the pairs of faults for every scalar pair (thorough).
+	pairsAllScalars bool
 }
 
 func menusFor(g *vlib.G) blasMenus {
@@ -42,6 +44,7 @@ func menusFor(g *vlib.G) blasMenus {
 		m.dims2 = []int{0, 1, 2, 3, 5, 9}
 		m.dims = []int{0, 1, 2, 3, 5, 9}
 		m.incs = []int{-3, -2, -1, 1, 2, 3}
+		m.pairsAllScalars = true
 		m.scalars = [][2]complex128{{2, 3}, {0, 3}, {0, 1}, {1, 0}}
 	}
 	return m
@@ -215,7 +218,10 @@ func runBlasCase(t *vlib.T, bm *blasMethod, proto Call, menus blasMenus) {
 	if r.Has("P") {
 		flags = rotms
 	}
-	for _, sc := range scal {
+	for isc, sc := range scal {
+		// quick tier: the pairs of faults are enumerated with the first scalar pair only
+		// (the argument checks do not depend on the scalars; singles run with every pair).
+		pairs := menus.pairs && (isc == 0 || menus.pairsAllScalars)
 		for _, fl := range flags {
 			vlib.Product(rad, func(idx []int) bool {
 				c := proto
@@ -235,7 +241,7 @@ func runBlasCase(t *vlib.T, bm *blasMethod, proto Call, menus blasMenus) {
 						c.Ld[k] = MinLd(&c, k) + menus.ldDelta[idx[k]]
 					}
 				}
-				bm.runBase(debugFailer{t}, &c, regs, menus.pairs, &st)
+				bm.runBase(debugFailer{t}, &c, regs, pairs, &st)
 				return true
 			})
 		}
